@@ -25,9 +25,12 @@ def build(reg):
     specs = record.add_merge(reg) + record.add_codec(reg)
     specs += [x for x in manifest.add_manifest(reg) if x.qual in ("IH5MFRecord._fixes_after_merge", "IH5MFRecord.merge_files")]  # the manifest side of a merge
     specs += h5copy.add_h5copy(reg)  # the copy merge_files materialises the view with
+    from . import oneliners
+
+    specs = specs + oneliners.add_oneliners(reg, props=("C05",))  # one- and two-line delegations, verified against what other contracts bind them to
     return {
         "verify": specs,
         "lemmas": [("chain-continuation", lemma_chain_continuation)],
-        "trusted": hashing.TRUSTED + [record.T1_OVL, record.T5_COPY, record.T3_HEX, "constructor type(self)(target,'x'): creates only new files, commits and closes on __exit__ (IH5Record.__init__/_create/close contracts; mode 'x' proved for _new_container in C02)"] + h5copy.T_COPY,
+        "trusted": oneliners.T_ONE + hashing.TRUSTED + [record.T1_OVL, record.T5_COPY, record.T3_HEX, "constructor type(self)(target,'x'): creates only new files, commits and closes on __exit__ (IH5Record.__init__/_create/close contracts; mode 'x' proved for _new_container in C02)"] + h5copy.T_COPY,
         "assumptions": [],
     }
